@@ -9,6 +9,10 @@ _FALSE = object()
 
 
 def replace_bool(value: Any) -> Any:
+    if isinstance(value, list):
+        return [replace_bool(sub_value) for sub_value in value]
+    if isinstance(value, dict):
+        return {key: replace_bool(sub_value) for key, sub_value in value.items()}
     return _TRUE if value is True else _FALSE if value is False else value
 
 
